@@ -74,10 +74,10 @@ def ref_slots(t: str) -> str:
 
 
 def check_text(ctx: Ctx, rule: str, key: str, site: str, text: str, ref: str, alts: list, witness: str,
-               universe: int = rx.MAXCP, fullmatch: bool = False) -> bool:
+               universe: int = rx.MAXCP, fullmatch: bool = False, standalone: bool = False) -> bool:
     """One obligation: `text` is contextually equivalent to `ref` (or reported as a known deviation)."""
     try:
-        p = rx.parse(text)
+        p = rx.parse(text, 0, not standalone)
     except rx.RxParseError as e:
         return ctx.ob(rule, key, False, site, f'≡ {ref}', f'does not parse: {e}', witness=witness)
     node = p.node
